@@ -70,6 +70,10 @@ def run(ctx):
     n = codegen.check_linear(ctx, "C01.g", cr)
     ctx.floor("C01.g", "fragment pops in generators", n, 27)
     rule_h(ctx, cr)
+    ctx.rule("C01.i", "the stored program is terminated: Program::link appends End unless the last "
+             "opcode is an End that no label points past (an End inside a trailing IF branch does "
+             "not terminate the program)")
+    codegen.check_program_end(ctx, "C01.i", cr)
 
 
 def rule_a(ctx, cr):
